@@ -524,8 +524,11 @@ type fakeMeta struct {
 func (m *fakeMeta) DataNode(id uint64) (*meta2.DataNode, error) {
 	dn := &meta2.DataNode{}
 	dn.ID = id
+	// RaftNode.deleteEntryLogPeriodically runs deleteEntryLog once a minute of wall-clock time on its own.
+	// Outside the harness's own truncation action every member is reported not alive: the periodic run
+	// then stops at "replica group status is unhealthy" (the tolerate time is hours) and proposes nothing.
 	m.cl.mu.Lock()
-	alive := m.cl.alive[int(id)-1]
+	alive := m.cl.alive[int(id)-1] && m.cl.truncWindow
 	m.cl.mu.Unlock()
 	if alive {
 		dn.Status = serf.StatusAlive
@@ -572,6 +575,7 @@ type cluster struct {
 	alive []bool // what the meta client reports for the data node
 	meta  *fakeMeta
 	sync  time.Duration
+	truncWindow bool // the harness runs deleteEntryLog right now (else the nodes' own one-minute ticker must find nothing to do)
 	real  bool // a real ts-store shard behind every node (else the stand-in, which can be paused inside a flush)
 }
 
